@@ -3,6 +3,6 @@
 TIER=${1:-quick}
 rc=0
 for i in $(seq -w 1 18); do
-  python3 /verif/vcheck.py C$i --tier $TIER | grep -E "^property=|VIOLATION|KNOWN-FINDING|BUILD-FAILED" || rc=1
+  python3 "$(dirname "$0")/vcheck.py" C$i --tier $TIER | grep -E "^property=|VIOLATION|KNOWN-FINDING|BUILD-FAILED" || rc=1
 done
 exit $rc
